@@ -49,6 +49,17 @@ def font_variants():
 
         return f
 
+    def cjk_stream(cmap, ordering, wmode):
+        # /Encoding as an embedded CMap stream that carries the name of a predefined CMap but its own /WMode:
+        # whatever the library makes of it, the predefined CMap other documents use by name must stay as it is
+        def f(alloc, shared):
+            base = cjk(cmap, ordering)(alloc, shared)
+            body = b"/CIDInit /ProcSet findresource begin 12 dict begin begincmap /CMapName /" + cmap + b" def /WMode %d def 1 begincodespacerange <00> <FF> endcodespacerange endcmap end end" % wmode
+            base[b"Encoding"] = alloc(docs.content_stream(body, extra={b"Type": Name(b"CMap"), b"CMapName": Name(cmap), b"WMode": wmode, b"CIDSystemInfo": {b"Registry": Str(b"Adobe"), b"Ordering": Str(ordering), b"Supplement": 2}}))
+            return base
+
+        return f
+
     def unknown_base(glyphs):
         # a legal base encoding the library has no table for, plus Differences
         def f(alloc, shared):
@@ -88,6 +99,8 @@ def font_variants():
         "cjk-euc-h": (cjk(b"EUC-H", b"Japan1"), "euc"),
         "cjk-rksj-h": (cjk(b"90ms-RKSJ-H", b"Japan1"), "sjis"),
         "cjk-unijis-v": (cjk(b"UniJIS-UCS2-V", b"Japan1"), 2),
+        "cjk-rksj-h-as-stream-wmode1": (cjk_stream(b"90ms-RKSJ-H", b"Japan1", 1), "sjis"),
+        "cjk-unijis-v-as-stream-wmode0": (cjk_stream(b"UniJIS-UCS2-V", b"Japan1", 0), 2),
     }
 
 
